@@ -196,6 +196,54 @@ def gen_witness_shaped(rng):
     return bytes([v, n]) + rbytes(rng, n)
 
 
+def template_scripts(crng):
+    """Every STANDARD TEMPLATE SHAPE as a literal byte pattern with random payloads, plus the +-1-byte length
+    neighbours of each (last byte dropped, one byte appended, payload one byte shorter / longer with and without
+    the push opcode adjusted).  Used as subscripts (C03) and as script codes (C04).  `crng` must be the
+    shard-independent generator: the list is partitioned over the shards by index."""
+    def r(n):
+        return rbytes(crng, n)
+    base = []
+
+    def pushed(prefix, n, suffix=b''):
+        """prefix ‖ push(n bytes) ‖ suffix and its payload-length neighbours"""
+        out = [prefix + bytes([n]) + r(n) + suffix]
+        for m in (n - 1, n + 1):
+            out.append(prefix + bytes([m]) + r(m) + suffix)        # opcode adjusted: parses, other shape
+            out.append(prefix + bytes([n]) + r(m) + suffix)        # opcode kept: shifted / truncated
+        return out
+    groups = [
+        pushed(b'\x00', 20),                                   # P2WPKH program 0014<20>
+        pushed(b'\x00', 32),                                   # P2WSH program 0020<32>
+        pushed(b'\x51', 32), pushed(b'\x52', 20), pushed(b'\x60', 2), pushed(b'\x60', 40), pushed(b'\x5a', 32),
+        [bytes([0x51 + k, 0x20]) + r(32) for k in range(16)],  # witness programs v1..v16
+        pushed(b'\x76\xa9', 20, b'\x88\xac'),                  # P2PKH
+        pushed(b'\xa9', 20, b'\x87'),                           # P2SH
+        pushed(b'', 33, b'\xac'), pushed(b'', 65, b'\xac'),     # P2PK compressed / uncompressed
+        [b'\x51\x21' + r(33) + b'\x51\xae',                     # bare multisig 1-of-1, 1-of-2, 2-of-3
+         b'\x51\x21' + r(33) + b'\x21' + r(33) + b'\x52\xae',
+         b'\x52\x21' + r(33) + b'\x21' + r(33) + b'\x41' + r(65) + b'\x53\xae'],
+        [b'\x6a', b'\x6a\x04' + r(4), b'\x6a\x28' + r(40), b'\x6a\x4c\x50' + r(80), b'\x6a\x00'],    # nulldata
+        [b'\x19\x76\xa9\x14' + r(20) + b'\x88\xac',            # P2WPKH script code with its length prefix as bytes
+         b'\x76\xa9\x14' + r(20) + b'\x88\xac'],               # ... and without
+        [b'\x16\x00\x14' + r(20), b'\x22\x00\x20' + r(32)],   # nested (P2SH-wrapped) witness programs as one push
+        [b''] + [bytes([o]) for o in (0x00, 0x4f, 0x51, 0x60, 0x61, 0x6a, 0x76, 0x87, 0x88, 0xa9, 0xab, 0xac, 0xae,
+                                      0xb1, 0xff)],            # empty, single opcodes
+    ]
+    for g in groups:
+        for sc in g:
+            base.append(sc)
+            if sc:
+                base.append(sc[:-1])                           # -1 byte
+            base.append(sc + bytes([crng.choice((0x00, 0x51, 0xac, crng.getrandbits(8)))]))    # +1 byte
+    seen, out = set(), []
+    for sc in base:
+        if sc not in seen:
+            seen.add(sc)
+            out.append(sc)
+    return out
+
+
 HT_STANDARD = (1, 2, 3, 0x81, 0x82, 0x83)
 # hash types outside one byte: the masks still select the mode, struct.pack('<i') has the int32 range
 HT_RANGE = (256, 257, 258, 259, 0x180, 0x182, 0x183, 0x1ff, 0x10001, (1 << 31) - 1, (1 << 31) - 30, 1 << 31,
@@ -298,7 +346,9 @@ class C03(Prop):
             'payloads and as a length byte, scripts that do not parse) x every index 0..|vin| x ALL 256 hash-type bytes; '
             'hash types outside one byte / negative / outside int32; wrapper (ValueError; subscripts shaped like witness '
             'programs — P2WPKH/P2WSH and every version/length — are generated and their AssertionError is known finding D17); '
-            'every case also observes that the transaction object is unchanged; a subset is re-evaluated under Spec; '
+            'every standard template shape (P2WPKH/P2WSH/v1..16 programs, P2PKH, P2SH, P2PK, bare multisig, nulldata, the '
+            'P2WPKH script code with and without length prefix, empty, single opcodes) and its +-1-byte neighbours as '
+            'subscript; every case also observes that the transaction object is unchanged; a subset is re-evaluated under Spec; '
             'histories: one live CMutableTransaction (and CTransaction) hashed, edited in place (field sets on inputs/'
             'outpoints/outputs, object replacement, list insert/delete/swap/replace, lock/version/witness), hashed again, '
             'legacy and witness-v0 interleaved on the same object')
@@ -351,6 +401,22 @@ class C03(Prop):
         import sys as _sys
         for _ in range(max(1, nh // nshards)):
             yield mk('c03.hist', *H.gen_history(rng, _sys.modules[__name__], self.pool, 'legacy', big), tag='history')
+        # (T) every standard template shape (and its +-1-byte neighbours) as subscript; the list is built from the
+        #     shard-independent generator and partitioned by index
+        import random as _random
+        crng = _random.Random('%s:%s:%s:common' % (getattr(self, 'seed', 0), self.id, tier))
+        for j, sc in enumerate(template_scripts(crng)):
+            if j % nshards != shard:
+                continue
+            t = gen_tx(rng, self.pool, nin=rng.randrange(1, 4), nout=rng.randrange(0, 4))
+            text = txfmt.show_tx(t)
+            for idx in range(len(t['vin']) + 1):
+                cls = rng.choice('im')
+                for ht in HT_STANDARD + (0, rng.randrange(256)):
+                    yield mk('c03.raw', cls, sc.hex(), text, idx, ht, tag='template')
+                    yield mk('c03.wrapper', cls, sc.hex(), text, idx, ht, tag='template')
+                if script_parses(sc):
+                    yield mk('c03.spec.raw', cls, sc.hex(), text, idx, rng.choice(HT_STANDARD), tag='template-spec')
         # (1) exhaustive hash-type byte per sampled (tx, script, index)
         for t, scs in self.combos(rng, tier, shard, nshards):
             text = txfmt.show_tx(t)
